@@ -185,13 +185,31 @@ fn run(case: &str) -> String {
 	let wf = match pelite::PeFile::from_bytes(b) { Ok(pelite::Wrap::T32(_)) => "T32".to_string(), Ok(pelite::Wrap::T64(_)) => "T64".to_string(), Err(e) => ename(e) };
 	let wv = match pelite::PeView::from_bytes(b) { Ok(pelite::Wrap::T32(_)) => "T32".to_string(), Ok(pelite::Wrap::T64(_)) => "T64".to_string(), Err(e) => ename(e) };
 	let mut out = format!("f32={} f64={} v32={} v64={} wf={} wv={}", r(f32.map(|_| ())), r(f64.map(|_| ())), r(v32.map(|_| ())), r(v64.map(|_| ())), wf, wv);
+	// header accessors, lookups and the checksum do not depend on how the buffer is interpreted: a PeView over the
+	// same bytes must report exactly what the PeFile reports (in particular it borrows the WHOLE buffer)
+	let v32 = pe32::PeView::from_bytes(b);
+	let v64 = pe64::PeView::from_bytes(b);
 	if let Ok(f) = f32 {
 		out.push_str(" | ");
-		out.push_str(&observe!(pe32, f, base, blen, rvas, names));
+		let fo = observe!(pe32, f, base, blen, rvas, names);
+		if let Ok(v) = v32 {
+			use pe32::{Pe, PeObject};
+			assert!(v.image().as_ptr() as usize == base && v.image().len() == blen, "harness: returned region outside the buffer: PeView::image() is not the buffer it was given ({} bytes of {})", v.image().len(), blen);
+			let vo = observe!(pe32, v, base, blen, rvas, names);
+			assert!(vo == fo, "harness: PeView reports headers differently from PeFile on the same bytes: view {} file {}", vo, fo);
+		}
+		out.push_str(&fo);
 	}
 	if let Ok(f) = f64 {
 		out.push_str(" | ");
-		out.push_str(&observe!(pe64, f, base, blen, rvas, names));
+		let fo = observe!(pe64, f, base, blen, rvas, names);
+		if let Ok(v) = v64 {
+			use pe64::{Pe, PeObject};
+			assert!(v.image().as_ptr() as usize == base && v.image().len() == blen, "harness: returned region outside the buffer: PeView::image() is not the buffer it was given ({} bytes of {})", v.image().len(), blen);
+			let vo = observe!(pe64, v, base, blen, rvas, names);
+			assert!(vo == fo, "harness: PeView reports headers differently from PeFile on the same bytes: view {} file {}", vo, fo);
+		}
+		out.push_str(&fo);
 	}
 	out
 }
